@@ -1,5 +1,6 @@
 import HapModel.Model.LdPlan
 import HapModel.Model.Transform
+import HapModel.Model.LdStat
 /-!
 # C16 — haptools ld reports the Pearson correlation of dosages   (PARTIAL)
 
@@ -44,5 +45,34 @@ theorem hap_dosage_counts_strands (g : Transform.Geno) (haps : List Transform.Ha
       (if Transform.setwise g haps h s 0 then 1 else 0) + (if Transform.setwise g haps h s 1 then 1 else 0) := by
   unfold hapDosage
   rw [Transform.setwise_eq_spec g haps h hh s 0, Transform.setwise_eq_spec g haps h hh s 1]
+
+/-- `LD(A,B) = LD(B,A)`: swapping target and listed item gives the same three integers (the two denominators
+    trade places), hence the same `R` -/
+theorem ld_symmetric (a b : List Int) (h : a.length = b.length) :
+    LdStat.stat b a = (LdStat.stat a b).map (fun s => ⟨s.num, s.db, s.da⟩) :=
+  LdStat.stat_symm a b h
+
+/-- … and the same set of acceptable printed values -/
+theorem ld_symmetric_as_printed (tol K p : Int) (s : LdStat.Stat) :
+    LdStat.printsAs tol K p ⟨s.num, s.db, s.da⟩ = LdStat.printsAs tol K p s :=
+  LdStat.printsAs_symm tol K p s
+
+/-- the output has one row per listed name, in the listing's order: nothing is added, dropped or repeated by the
+    computation of the values -/
+theorem one_row_per_listed_name (g : Transform.Geno) (keep : List Nat) (target : LdStat.Name)
+    (listed : List (String × LdStat.Name)) :
+    (LdStat.rows g keep target listed).map (·.1) = listed.map (·.1) :=
+  LdStat.rows_names g keep target listed
+
+/-- the dosage the statistic is computed from is C04's: strands carrying all alleles (model-level identity used by
+    `LdStat.rows`) -/
+theorem rows_use_strand_dosage (g : Transform.Geno) (h : Transform.Hap) (s : Nat) :
+    LdStat.hapDosage g h s = (hapDosage g h s : Int) := by
+  unfold LdStat.hapDosage hapDosage
+  split <;> split <;> rfl
+
+/-- non-vacuity: a concrete pair with `R = −1/2`, printed as `-0.500` only -/
+example : LdStat.stat [0, 1, 2, 1] [2, 0, 1, 1] = some ⟨-4, 8, 8⟩ ∧
+    LdStat.accepted 2 1000000 ⟨-4, 8, 8⟩ = [-500] := by decide +kernel
 
 end C16
